@@ -425,6 +425,18 @@ def userExists (cfg : Cfg) (env : Env) (ds0 : Ds) (loc tail domain : List Byte) 
         else ⟨-(ctlErr env e : Int), Ds.init, o.2, [], 1⟩
       | .ok dd => inDomain cfg env { v.ds with domaindir := some dd } dd loc tail o.2
 
+/-- Descriptors lost by one call: vget_dir() keeps `ds->domaindirfd` when the domain path is the
+one already cached in `ds` (only the user directory descriptor is closed), and user_exists() then
+overwrites it with a freshly opened one.  Happens with the global cache used for MAIL FROM when
+two sender addresses of one local domain are checked in a row; never with the fresh `ds` of
+smtp_rcpt(). -/
+def leakedFds (cfg : Cfg) (env : Env) (ds0 : Ds) (loc domain : List Byte) : Nat :=
+  if SLASH ∈ loc then 0
+  else if cfg.refuseDotNames ∧ isDotName loc then 0
+  else
+    let v := vgetDir cfg env ds0 domain
+    if v.res = 1 ∧ v.ds.domaindir.isSome then 1 else 0
+
 /-! ### getfile -/
 
 structure GfOut where
